@@ -129,6 +129,29 @@ def run(seed=0, rounds=40):
         lst = [rnd.choice("abc") for _ in range(n)]
         ok("list.index", all(lst.index(t) == min(i for i, u in enumerate(lst) if u == t) for t in set(lst)))
         ok("str.split", "a.b.c".split(".") == ["a", "b", "c"] and "abc".split(".") == ["abc"])
+    # the finite-set model of vf/pyvc/sets.py (contrasts_c): the ground cardinality facts, and sets of real ExpandedFactor objects
+    # behaving like sets of their (flag, factor) field tuples - the datatype EF the proofs use for membership
+    from formulae.contrasts import ExpandedFactor
+    for _ in range(rounds):
+        pool = [(rnd.random() < 0.5, rnd.choice(["f", "g", "h", "k"])) for _ in range(rnd.randint(0, 6))]
+        a = frozenset(pool)
+        b = frozenset(t for t in a if rnd.random() < 0.6)
+        x = (rnd.random() < 0.5, rnd.choice(["f", "g", "h", "k", "m"]))
+        ok("set len", len(a) >= 0 and (len(a) == 0) == (a == frozenset()))
+        d = a.difference(b)
+        ok("set difference card", 0 <= len(d) <= len(a) and (not b <= a or len(d) == len(a) - len(b)) and d == a - b)
+        s2 = set(a)
+        s2.add(x)
+        ok("set add card", len(s2) == len(a) + (0 if x in a else 1) and s2 == a | {x} and set(a) == a and set(a) is not a)
+        one = frozenset([x])
+        ok("singleton", len(one) == 1 and one == {list(one)[0]} and list(one)[0] == next(iter(one)))
+        ok("issuperset", a.issuperset(b) == all(t in a for t in b) == (b <= a))
+        A_ = frozenset(ExpandedFactor(fl, fa) for fl, fa in pool)
+        B_ = frozenset(ExpandedFactor(fl, fa) for fl, fa in b)
+        ok("EF sets as field tuples", len(A_) == len(a) and {(e.includes_intercept, e.factor) for e in A_} == a
+           and (ExpandedFactor(*x) in A_) == (x in a) and A_.issuperset(B_) == a.issuperset(b)
+           and {(e.includes_intercept, e.factor) for e in A_.difference(B_)} == a - b
+           and (A_ == B_) == (a == b) and (hash(A_) == hash(B_) or a != b))
     from ..pyvc.chars import validate_class_axioms
     ok("character-class axioms (all code points < 0x3000)", not validate_class_axioms())
     return n_checks, fails
